@@ -161,7 +161,8 @@ func edit(r *rand.Rand, ls []string) []string {
 func randomCfg(r *rand.Rand, in *input) {
 	in.cleanup = r.Intn(2) == 0
 	in.ws = r.Intn(2) == 0
-	in.timeout = []int{0, 0, 1, 2, 10, 100, 1000}[r.Intn(7)]
+	// -1 / -2: the option is given as 0 / -1 (warning "invalid timeout value", no deadline)
+	in.timeout = []int{0, 0, 1, 2, 10, 100, 1000, -1, -2}[r.Intn(9)]
 }
 
 func genLines(c *Config, maxLines int) input {
@@ -310,51 +311,6 @@ func genHeavy(c *Config, lines int) input {
 	return in
 }
 
-// genBig: more distinct lines than there are code points below the UTF-16 surrogate range (55 295), so that the
-// line ids handed out by DiffLinesToRunes reach 0xD800..0xDFFF
-func genBig(c *Config, distinct int, variant int) input {
-	r := c.Rng
-	la := make([]string, distinct)
-	for i := range la {
-		la[i] = fmt.Sprintf("%x", i)
-	}
-	lb := append([]string{}, la...)
-	switch variant % 3 {
-	case 0:
-		// replace lines whose ids are in the surrogate range by fresh lines (ids beyond)
-		for k := 0; k < 40; k++ {
-			p := 55290 + r.Intn(distinct-55290)
-			lb[p] = fmt.Sprintf("n%x", k)
-		}
-	case 1:
-		// swap neighbours inside the surrogate range and delete/insert some
-		for k := 0; k < 30; k++ {
-			p := 55296 + r.Intn(distinct-55296-1)
-			lb[p], lb[p+1] = lb[p+1], lb[p]
-		}
-		lb = append(lb[:100:100], lb[130:]...)
-	case 2:
-		// edits everywhere
-		for k := 0; k < 200; k++ {
-			p := r.Intn(len(lb))
-			lb[p] = fmt.Sprintf("z%x", r.Intn(1000))
-		}
-	}
-	plain := func(ls []string) []byte {
-		var out []byte
-		for _, l := range ls {
-			out = append(out, l...)
-			out = append(out, '\n')
-		}
-		return out
-	}
-	in := input{kind: "big", a: plain(la), b: plain(lb)}
-	in.cleanup = variant%2 == 0
-	in.ws = false
-	in.timeout = 0
-	return in
-}
-
 func generate(c *Config) {
 	// corner cases first
 	fixed := []struct{ a, b string }{
@@ -392,18 +348,5 @@ func generate(c *Config) {
 	}
 	for i := c.Count(6, 150); i > 0; i-- {
 		emit(c, genHeavy(c, 3000))
-	}
-}
-
-func generateBig(c *Config) {
-	if c.Thorough() {
-		for i := 0; i < 6; i++ {
-			emit(c, genBig(c, 57400, i))
-		}
-		emit(c, genBig(c, 66000, 0))
-		emit(c, genBig(c, 66000, 1))
-	} else {
-		emit(c, genBig(c, 57400, 0))
-		emit(c, genBig(c, 57400, 1))
 	}
 }
